@@ -13,6 +13,7 @@ import (
 
 	"golang.org/x/tools/go/ssa"
 
+	"verif/sa/boolfn"
 	"verif/sa/core"
 )
 
@@ -213,4 +214,18 @@ func Idents() int {
 		}
 	}
 	return 0
+}
+
+// recoverUnsupported turns an evaluation that leaves the exact evaluator's
+// grammar or node budget outside the guarded parts of an exact rule into "not
+// decided exactly": the rule's structural fall-back runs instead.
+func recoverUnsupported(c *Ctx, ok *bool, name string) {
+	if r := recover(); r != nil {
+		if u, isU := r.(*boolfn.Unsupported); isU {
+			c.L.Notef("%s: outside the exact evaluator's grammar or node budget (%v); structural rules used instead", name, u)
+			*ok = false
+			return
+		}
+		panic(r)
+	}
 }
